@@ -29,6 +29,7 @@ mod scen;
 mod world;
 mod props;
 mod refmodel;
+mod reqfuzz;
 mod runner;
 
 use runner::Tier;
@@ -145,6 +146,19 @@ fn main() {
                 _ if engine == "e2e-batch" => e2e::replay_batch(leaked, case),
                 _ if engine == "e2e-height" => e2e::replay_height(case),
                 _ if engine == "e2e-config" => props::c19::replay(case),
+                _ if engine == "fuzz-request" => {
+                    let bytes = hex::decode(case["input"].as_str().unwrap_or("")).unwrap_or_default();
+                    let before = PANICS.with(|p| p.get());
+                    let r = std::panic::catch_unwind(|| reqfuzz::run_one(&bytes));
+                    let mut rep = runner::CaseReport::default();
+                    match r {
+                        Ok(Ok(_)) if PANICS.with(|p| p.get()) == before => {}
+                        Ok(Ok(_)) => rep.violations.push(runner::Violation::new(leaked, "task_panicked", format!("a task panicked: {}", LAST_PANIC.with(|l| l.borrow().clone())))),
+                        Ok(Err(e)) => rep.violations.push(runner::Violation::new(leaked, "fuzz_oracle", e)),
+                        Err(_) => rep.violations.push(runner::Violation::new(leaked, "panic", "run_one panicked".into())),
+                    }
+                    Some(rep)
+                }
                 "C13" => props::c13::replay(&engine, case),
                 "C14" => props::c14::replay(&engine, case),
                 "C17" => props::c17::replay(&engine, case),
